@@ -70,10 +70,10 @@ def run_loops(ctx, fx, rule, checks, alpha=None, kinds=("plain", "stream")):
     """shared by the properties that read the loop automata"""
     A = alpha or loops.lifecycle_alphabet()
     found = loops.find_loops(fx)
-    kinds = sorted(k for _, k in found)
+    found_kinds = sorted(k for _, k in found)
     ctx.floor(rule, "event-loop coroutines (plain + stream) in cfg %s" % fx.cfg, len(found), 2)
-    if "plain" not in kinds or "stream" not in kinds:
-        ctx.viol(rule, "floor:loop-kinds", "expected one plain and one stream loop, found %s" % kinds)
+    if "plain" not in found_kinds or "stream" not in found_kinds:
+        ctx.viol(rule, "floor:loop-kinds", "expected one plain and one stream loop, found %s" % found_kinds)
     out = []
     for f, kind in found:
         if kind not in kinds:
